@@ -2,7 +2,7 @@
    [build_checked] is the model of spox.build (coq/Build.v build_public) followed by the model's own validators;
    the per-run correspondence shows that the real build returns exactly [build_checked]'s model (names included). *)
 From Coq Require Import List String NArith Arith Bool.
-From Spox Require Import Base IR Show Build Validate BuildFacts.
+From Spox Require Import Base IR Show Build Validate BuildFacts ScopeFacts.
 Import ListNotations.
 
 (* A model is returned only after the final structural check (per-graph SSA without shadowing, definition before use
@@ -38,3 +38,29 @@ Proof. intros p r m H. apply build_checked_inv in H. destruct H as [Hb Hv].
   { unfold validators in Hv. destruct (all_vars (r_inputs r)), (all_vars (r_outputs r)); try discriminate; eauto. }
   exact (one_import_per_domain p r m i o Hi Ho Hv). Qed.
 Print Assumptions C02_one_import_per_domain.
+
+(* Algorithmic (validator-free) layer: the Builder's naming tables are injective by construction and the names reserved
+   for the contents of inlined models never collide with a Var name — for every successful Builder run (main graph or
+   function body), of any size and nesting depth. *)
+Theorem C02_scope_tables_injective :
+  forall ffuel p un main b, build_main ffuel p un main = inl b -> ScopeInv (b_scope b).
+Proof. exact build_main_scope_inv. Qed.
+Print Assumptions C02_scope_tables_injective.
+
+Theorem C02_distinct_vars_distinct_names :
+  forall ffuel p un main b v w n,
+    build_main ffuel p un main = inl b -> vlook (b_scope b) v = inl n -> vlook (b_scope b) w = inl n -> v = w.
+Proof. exact distinct_vars_distinct_names. Qed.
+Print Assumptions C02_distinct_vars_distinct_names.
+
+Theorem C02_distinct_nodes_distinct_names :
+  forall ffuel p un main b v w n,
+    build_main ffuel p un main = inl b -> nlook (b_scope b) v = inl n -> nlook (b_scope b) w = inl n -> v = w.
+Proof. exact distinct_nodes_distinct_names. Qed.
+Print Assumptions C02_distinct_nodes_distinct_names.
+
+Theorem C02_reserved_names_never_name_a_var :
+  forall ffuel p un main b v n,
+    build_main ffuel p un main = inl b -> vlook (b_scope b) v = inl n -> ~ In n (reserved (b_scope b)).
+Proof. exact reserved_names_never_name_a_var. Qed.
+Print Assumptions C02_reserved_names_never_name_a_var.
